@@ -107,10 +107,14 @@ add('s_cmp', 'debug_fmt', ['C13', 'C07', 'C04'], lambda n, sp: 19, pairs=(DBG_Q,
 IO_Q = [(n, 1) for n in (0, 1, 2, 3, 4)]          # one step from any state (inductive, like C01)
 IO_T = [(n, 2) for n in (0, 1, 2, 3)] + [(5, 1)]   # explicit two-step sequences as a cross-check
 add('s_io', 'io_std', ['C14', 'C11'], lambda n, k: 2 * n + 5, pairs=(IO_Q, IO_T), feat='feature = "std"')
-add('s_io', 'io_eio', ['C16'], lambda n, k: 2 * n + 5, pairs=(IO_Q, IO_T), feat='feature = "eio"', configs=['eio', 'eio-both'])
-add('s_io', 'io_eio_async', ['C16'], lambda n, k: 2 * n + 5, pairs=(IO_Q, IO_T), feat='feature = "eio-async"',
-    configs=['eio-async', 'eio-both'])
-add('s_io', 'io_pair_eio', ['C16'], lambda n: 2 * n + 5, qn=[0, 1, 2, 3], tn=[4], feat='all(feature = "eio", feature = "std")',
+IO16_Q = [(n, 1) for n in (0, 1, 2, 3)]
+IO16_T = [(4, 1)] + [(n, 2) for n in (0, 1, 2)]
+add('s_io', 'io_eio', ['C16'], lambda n, k: 2 * n + 5, pairs=(IO16_Q, IO16_T), feat='feature = "eio"', configs=['eio'])
+add('s_io', 'io_eio_async', ['C16'], lambda n, k: 2 * n + 5, pairs=(IO16_Q, IO16_T), feat='feature = "eio-async"', configs=['eio-async'])
+# both features together (the ErrorType import differs): the same scenarios at two capacities
+add('s_io', 'io_eio', ['C16'], lambda n, k: 2 * n + 5, pairs=([(0, 1), (2, 1)], [(3, 1)]), feat='feature = "eio"', configs=['eio-both'])
+add('s_io', 'io_eio_async', ['C16'], lambda n, k: 2 * n + 5, pairs=([(0, 1), (2, 1)], [(3, 1)]), feat='feature = "eio-async"', configs=['eio-both'])
+add('s_io', 'io_pair_eio', ['C16'], lambda n: 2 * n + 5, qn=[0, 1, 2], tn=[3, 4], feat='all(feature = "eio", feature = "std")',
     configs=['eio'])
 
 # ---------------------------------------------------------------- ZST / extreme capacities (s_zst)
@@ -165,17 +169,20 @@ add('s_ctor', 'alloc_witness_boxed', ['C17'], U(1, 4), qn=[3], tn=[], stubs=NOAL
 # ---------------------------------------------------------------- C18: the same families built with the `unstable` feature
 C18_CFG = ['default', 'unstable']
 C18_N = [3]
-for fn in ('push_back', 'push_front', 'try_push_back', 'try_push_front', 'pop_back', 'pop_front', 'remove', 'swap',
-           'swap_remove_back', 'swap_remove_front', 'truncate_back', 'truncate_front', 'clear', 'extend', 'fill', 'fill_spare',
-           'fill_with', 'fill_spare_with'):
+for fn in ('push_back', 'push_front', 'pop_front', 'remove', 'truncate_back', 'truncate_front', 'clear', 'extend', 'fill', 'fill_with'):
     add('s_mut', fn, ['C18'], natural(fn), qn=C18_N, tn=[0, 1, 2, 4], mask='ALL18', configs=C18_CFG)
+for fn in ('try_push_back', 'try_push_front', 'pop_back', 'swap', 'swap_remove_back', 'swap_remove_front', 'fill_spare', 'fill_spare_with'):
+    add('s_mut', fn, ['C18'], natural(fn), qn=[], tn=[0, 1, 2, 3, 4], mask='ALL18', configs=C18_CFG)
 add('s_mut', 'extend_from_slice', ['C18'], lambda n: max(2 * n + 4, 15), qn=C18_N, tn=[0, 1, 2, 4], mask='ALL18', configs=C18_CFG)
 add('s_mut', 'make_contiguous', ['C18'], U(1, 4), qn=C18_N, tn=[0, 1, 2, 4], stubs=[ROT], mask='ALL18', configs=C18_CFG)
-for mod, fn in (('s_view', 'views'), ('s_view', 'view_mut'), ('s_view', 'view_mut_distinct'), ('s_iter', 'iter_script'),
-                ('s_iter', 'iter_mut_script'), ('s_iter', 'into_iter_script'), ('s_drain', 'drain'), ('s_drain', 'drain_forget'),
-                ('s_drain', 'drain_debug'), ('s_ctor', 'ctor_new'), ('s_ctor', 'from_iter'), ('s_ctor', 'clone_buf'),
-                ('s_ctor', 'clone_from'), ('s_ctor', 'into_iter_all'), ('s_cmp', 'ord_buffers'), ('s_cmp', 'hash_layout')):
+C18_QUICK = (('s_view', 'views'), ('s_view', 'view_mut'), ('s_iter', 'iter_script'), ('s_iter', 'iter_mut_script'),
+             ('s_iter', 'into_iter_script'), ('s_drain', 'drain'), ('s_drain', 'drain_forget'), ('s_ctor', 'clone_from'))
+C18_MORE = (('s_view', 'view_mut_distinct'), ('s_drain', 'drain_debug'), ('s_ctor', 'ctor_new'), ('s_ctor', 'from_iter'),
+            ('s_ctor', 'clone_buf'), ('s_ctor', 'into_iter_all'), ('s_cmp', 'ord_buffers'), ('s_cmp', 'hash_layout'))
+for mod, fn in C18_QUICK:
     add(mod, fn, ['C18'], natural(fn), qn=C18_N, tn=[0, 1, 2, 4], mask='ALL18', configs=C18_CFG)
+for mod, fn in C18_MORE:
+    add(mod, fn, ['C18'], natural(fn), qn=[], tn=[0, 1, 2, 3, 4], mask='ALL18', configs=C18_CFG)
 add('s_ctor', 'from_array', ['C18'], lambda n, m: max(n, m) + 4, pairs=([(0, 2), (1, 3), (3, 2), (3, 5)], [(2, 5), (4, 7)]), mask='ALL18', configs=C18_CFG)
 add('s_cmp', 'eq_buffers', ['C18'], lambda n, m: max(n, m) + 4, pairs=([(1, 3), (3, 3)], [(4, 3)]), mask='ALL18', configs=C18_CFG)
 add('s_io', 'io_std', ['C18'], lambda n, k: 2 * n + 5, pairs=([(3, 1)], [(1, 1), (4, 1)]), feat='feature = "std"', mask='ALL18', configs=C18_CFG)
